@@ -31,7 +31,9 @@ package props
 //                                      strand:Abpos:Aepos:Bbpos:Bepos:Score:ErrE12:LowDiag:HighDiag
 //                                      (strand 0 = forward, 1 = complement; B coordinates are in the
 //                                      sequence Align worked on, i.e. the reverse complement of the
-//                                      query for strand 1; ErrE12 = round(Error*1e12))
+//                                      query for strand 1; ErrE12 = round(Error*1e12)); for pw a fourth token
+//                                      T=<traps strand 0>|<traps strand 1> (';' separated Top:Bottom:Left:Right): the
+//                                      trapezoids the merger handed to the aligner
 
 import (
 	"fmt"
@@ -140,6 +142,17 @@ func c15ExecTraps(f []string) string {
 	return sb.String()
 }
 
+func c15RenderTraps(traps filter.Trapezoids) string {
+	if len(traps) == 0 {
+		return "-"
+	}
+	ss := make([]string, len(traps))
+	for i, t := range traps {
+		ss[i] = fmt.Sprintf("%d:%d:%d:%d", t.Top, t.Bottom, t.Left, t.Right)
+	}
+	return strings.Join(ss, ";")
+}
+
 // c15RenderHits appends the hits of one strand in a canonical order; n = number of hits already written
 func c15RenderHits(sb *strings.Builder, strand int, hits dp.Hits, n int) int {
 	hs := append(dp.Hits(nil), hits...)
@@ -216,16 +229,20 @@ func c15Exec(input string) string {
 	sd0 := int(float64(minLen) * (1 - minID))
 	fmt.Fprintf(&sb, "P=%d,%d,%d,%d O=%d,%d H=", fp.WordSize, fp.MinMatch, fp.MaxError, fp.TubeOffset, mws, sd0)
 	n := 0
+	var ts [2]string
 	for strand, comp := range []bool{false, true} {
 		hits, err := pa.Align(comp)
 		if err != nil {
 			return "err:align:" + hx.Hex([]byte(err.Error()))
 		}
 		n = c15RenderHits(&sb, strand, hits, n)
+		ts[strand] = c15RenderTraps(pa.Trapezoids())
 	}
 	if n == 0 {
 		sb.WriteByte('-')
 	}
+	// the trapezoids each strand's aligner was given (the kernel model is run on them)
+	fmt.Fprintf(&sb, " T=%s|%s", ts[0], ts[1])
 	return sb.String()
 }
 
